@@ -124,6 +124,44 @@ def keep(d, pid, name):
     print("KEPT", name, "detected by", sorted(caught) or "NOTHING", "| exit2:", sorted(broken))
 
 
+def keepref(d, pid, name):
+    """archive a behaviour-preserving refactoring: demo must pass clean AND patched,
+    the pinned suite must pass, and every check must stay silent."""
+    v = verify(d)
+    if not v.get("applies") or v.get("demo_clean_rc") != 0 or v.get("demo_patched_rc") != 0:
+        print("REJECT (demo)", name, v)
+        return
+    t = tests(d)
+    if t["missing"]:
+        print("REJECT (tests)", name, t)
+        return
+    det = detect_wt(d)
+    out = os.path.join(VERIF, "seeded", name)
+    os.makedirs(out, exist_ok=True)
+    shutil.copy(os.path.join(d, "patch.diff"), os.path.join(out, "patch.diff"))
+    shutil.copy(os.path.join(d, "demo.py"), os.path.join(out, "demo.py"))
+    notes = open(os.path.join(d, "notes.md")).read() if os.path.exists(os.path.join(d, "notes.md")) else ""
+    caught = {k: v["lines"][:3] for k, v in det.items() if v["rc"] == 1}
+    broken = {k: v["lines"][:3] for k, v in det.items() if v["rc"] == 2}
+    meta = {
+        "property": pid,
+        "kind": "behaviour-preserving refactoring (checks must stay silent)",
+        "origin": "independent sub-agent given only the property record and a scratch worktree",
+        "needs_to_manifest": notes,
+        "confirmed": {
+            "demo_exit_clean": v["demo_clean_rc"],
+            "demo_exit_patched": v["demo_patched_rc"],
+            "pinned_suite_stable_pass_with_patch": t["stable_pass"] - len(t["missing"]),
+            "how": "scratch git worktree of /repo HEAD; demo run before and after `git apply patch.diff` (exit 0 both times); pinned pytest command in the patched worktree; ./check <ID> --repo <patched worktree> for every claimed property",
+        },
+        "detected_by": caught,
+        "analysis_error_in": broken,
+        "repo_head": sh("git -C /repo rev-parse --short HEAD")[1].strip(),
+    }
+    json.dump(meta, open(os.path.join(out, "meta.json"), "w"), indent=1)
+    print("KEPT-REF", name, "SILENT" if not caught and not broken else f"FALSE ALARM in {sorted(caught)} exit2 {sorted(broken)}")
+
+
 def detect(d, ids=None):
     man = json.load(open(os.path.join(VERIF, "MANIFEST.json")))
     ids = ids or [c["property_id"] for c in man["checks"]]
@@ -144,13 +182,37 @@ def detect(d, ids=None):
 
 
 if __name__ == "__main__":
-    mode, d = sys.argv[1], os.path.abspath(sys.argv[2])
+    mode = sys.argv[1]
+    d = os.path.abspath(sys.argv[2]) if len(sys.argv) > 2 else None
     if mode == "verify":
         print(json.dumps(verify(d), indent=1))
     elif mode == "tests":
         print(json.dumps(tests(d), indent=1))
     elif mode == "keep":
         keep(d, sys.argv[3], sys.argv[4])
+    elif mode == "keepref":
+        keepref(d, sys.argv[3], sys.argv[4])
+    elif mode == "refresh":
+        # re-run every claimed check against every archived change; update meta.json
+        import glob
+        for dd in sorted(glob.glob(os.path.join(VERIF, "seeded", "*"))):
+            mp = os.path.join(dd, "meta.json")
+            if not os.path.exists(mp):
+                continue
+            meta = json.load(open(mp))
+            det = detect_wt(dd)
+            meta["detected_by"] = {k: v["lines"][:3] for k, v in det.items() if isinstance(v, dict) and v.get("rc") == 1}
+            meta["analysis_error_in"] = {k: v["lines"][:3] for k, v in det.items() if isinstance(v, dict) and v.get("rc") == 2}
+            meta["repo_head_at_refresh"] = sh("git -C /repo rev-parse --short HEAD")[1].strip()
+            json.dump(meta, open(mp, "w"), indent=1)
+            exp_silent = meta.get("kind", "").startswith("behaviour-preserving")
+            status = "SILENT" if not meta["detected_by"] and not meta["analysis_error_in"] else ("detected by " + ",".join(sorted(meta["detected_by"])) + (" exit2:" + ",".join(sorted(meta["analysis_error_in"])) if meta["analysis_error_in"] else ""))
+            flag = ""
+            if exp_silent and status != "SILENT":
+                flag = "  <-- FALSE ALARM"
+            if not exp_silent and not meta["detected_by"]:
+                flag = "  <-- MISSED"
+            print(os.path.basename(dd), status, flag)
     elif mode == "detectwt":
         r = detect_wt(d, sys.argv[3:] or None)
         for pid, v in r.items():
